@@ -14,6 +14,7 @@ void with_shape(const std::string &shape, F &&f)
     else if (shape == "dd") f.template operator()<S_DD>();
     else if (shape == "bb") f.template operator()<S_BB>();
     else if (shape == "bl") f.template operator()<S_BL>();
+    else if (shape == "qq") f.template operator()<S_QQ>();
     else if (shape == "tss32") f.template operator()<S_TSS32>();
     else if (shape == "tsd32") f.template operator()<S_TSD32>();
     else throw std::runtime_error("unknown shape " + shape);
@@ -86,6 +87,27 @@ bool Interp::exec_coll(Interp &I, const Stmt &s)
         I.env[s.dst] = PortVal{out.template as<S_TSD>().erased(), PT::Other, "tsd"};
         return true;
     }
+    if (s.op == "quad")
+    {
+        // quad <a> <b> <c> <d>: a 2x2 grid ASSEMBLED from four independent ports (a structural, non-peered source)
+        auto q = stdlib::to_tsl<S_QQ>(w, stdlib::to_tsl<S_PAIR>(w, I.pi(a.at(0)), I.pi(a.at(1))).template as<S_PAIR>(),
+                                      stdlib::to_tsl<S_PAIR>(w, I.pi(a.at(2)), I.pi(a.at(3))).template as<S_PAIR>()).template as<S_QQ>();
+        I.env[s.dst] = PortVal{q.erased(), PT::Other, "qq"};
+        return true;
+    }
+    if (s.op == "quadsub")
+    {
+        // quadsub <grid> perm=<k> nest=0|1|2: a sub-graph whose result is a re-arrangement of its one structured parameter, wired
+        // inline or as a nested child graph (nest = depth)
+        PortVal q = I.get(a.at(0));
+        const Int perm = s.kwi("perm", 1);
+        Port<S_QQ> in{w, q.ref};
+        Port<S_QQ> out = s.kwi("nest", 0) == 0 ? wire<SubQ>(w, in, perm)
+                         : s.kwi("nest", 0) == 1 ? nested_<SubQ>(w, in, perm).template as<S_QQ>()
+                                                 : nested_<SubQ2>(w, in, perm).template as<S_QQ>();
+        I.env[s.dst] = PortVal{out.erased(), PT::Other, "qq"};
+        return true;
+    }
     if (s.op == "elem")
     {
         // elem <tsl port> <i>: projection of one element of a fixed list output (siblings share the owning output)
@@ -151,6 +173,13 @@ bool Interp::exec_coll(Interp &I, const Stmt &s)
         {
             if (s.kw.count("zero")) out = wire<stdlib::reduce_>(w, f, Port<S_TSL>{w, d.ref}, Int{s.kwi("zero")});
             else out = wire<stdlib::reduce_>(w, f, Port<S_TSL>{w, d.ref});
+        }
+        else if (d.shape == "dd")
+        {
+            // a reduction whose VALUE is itself a dictionary (elements are dictionaries, merged key-wise)
+            out = wire<stdlib::reduce_>(w, fn<VMergeDD>(), Port<S_DD>{w, d.ref});
+            I.env[s.dst] = PortVal{out.template as<S_TSD>().erased(), PT::Other, "tsd"};
+            return true;
         }
         else throw std::runtime_error("reduce shape");
         I.env[s.dst] = PortVal{out.template as<TS<Int>>().erased(), PT::Int, "ts"};
